@@ -77,13 +77,50 @@ def _lex(text):
     return a
 
 
+SITE_PROPS = ("C01", "C02", "C03", "C07", "C09", "C10")
+
+
 def _add(prop, sig, detail):
     if prop in MON.props:
+        if "rule" in sig and prop in SITE_PROPS:
+            sig = dict(sig)
+            detail = dict(detail or {})
+            detail.setdefault("rule", sig["rule"])
+            sig["site"] = site_of_id(sig.pop("rule"))
         MON.fail[prop].append({"sig": sig, "detail": detail})
 
 
 def _squeeze(s):
     return re.sub(r"\s+", "", s)
+
+
+_SITE = {}
+
+
+def site_of(rule, rid=None):
+    """call site of a rule's fix: the module of the class that implements _fix_violation for it (most rules share
+    one of ~80 base-class implementations); pseudo steps keep their own name"""
+    if rule is None:
+        return rid
+    key = type(rule)
+    if key not in _SITE:
+        st = rule.unique_id
+        for c in type(rule).__mro__:
+            if "_fix_violation" in c.__dict__ or ("fix" in c.__dict__ and c.__module__ != "vsg.rule"):
+                st = c.__module__.replace("vsg.rules.", "").replace("vsg.", "")
+                break
+        _SITE[key] = st
+    return _SITE[key]
+
+
+_RULE_SITE = {}
+
+
+def site_of_id(rid):
+    if not _RULE_SITE:
+        for r in vsgapi.rule_list.load_rules():
+            _RULE_SITE[r.unique_id] = site_of(r)
+    return _RULE_SITE.get(rid, rid)
 
 
 # ------------------------------------------------------------------------------------------
@@ -118,14 +155,16 @@ def analyse_application(rule, rid, before, after, reported, pseudo=False):
     code_bad = r is not None
     if r is not None:
         kind, det = r
-        _add("C01", {"rule": rid, "kind": kind}, det)
+        det = dict(det, rule=rid)
+        _add("C01", {"site": site_of(rule, rid), "kind": kind}, det)
         MON.corrupt = True
 
     # ---- C02
     if ka != kb:
         kind, det = _classify_comments(rid, ka, kb, rule)
         if kind is not None:
-            _add("C02", {"rule": rid, "kind": kind}, det)
+            det = dict(det, rule=rid)
+            _add("C02", {"site": site_of(rule, rid), "kind": kind}, det)
             MON.corrupt = True
 
     # ---- C03
@@ -160,8 +199,8 @@ def _classify_comments(rid, ka, kb, rule):
 
 
 def _ws_norm_comment(v):
-    # text of a comment with the leader separated and whitespace runs collapsed
-    return re.sub(r"\s+", " ", v.replace("\t", " ")).strip()
+    # text of a comment with all whitespace removed (only whitespace normalisation is documented for comment rules)
+    return re.sub(r"\s+", "", v)
 
 
 def _multiset_diff(a, b):
@@ -191,7 +230,7 @@ def _line_local(groups):
 
 def _c03(rule, rid, groups, before, after, ca, cb, ka, kb, la, lb):
     g = set(groups)
-    sig = lambda kind: {"rule": rid, "kind": kind}  # noqa: E731
+    sig = lambda kind: {"site": site_of(rule, rid), "kind": kind}  # noqa: E731
     never = (not rule.fixable) or rule.disable or rule.severity.type != severity.error_type or "naming" in g or "length" in g
     if never:
         why = "unfixable" if not rule.fixable else "disabled" if rule.disable else "warning_severity" if rule.severity.type != severity.error_type else "naming_or_length"
@@ -619,12 +658,13 @@ def _c08(f, c, cla, style, conf, out_lines):
         x = a[i] if i < len(a) else ("<end>", "", None)
         y = b[i] if i < len(b) else ("<end>", "", None)
         prod = MON.prov.get(id(f.lAllObjects[i]), "parse_or_cleanup") if i < len(f.lAllObjects) else "end"
+        prod_rule, prod = prod, site_of_id(prod)
         kind = "empty_whitespace_token_in_model" if (x[0] == "parser.whitespace" and x[1] == "") else "token_level"
-        MON.fail["C08"].append({"sig": {"kind": kind, "producer": prod, "model": x[0]}, "detail": {"at": i, "reparsed_class": y[0], "model": a[max(0, i - 3) : i + 3], "reparsed": b[max(0, i - 3) : i + 3]}})
+        MON.fail["C08"].append({"sig": {"kind": kind, "producer": prod, "model": x[0]}, "detail": {"at": i, "producing_rule": prod_rule, "reparsed_class": y[0], "model": a[max(0, i - 3) : i + 3], "reparsed": b[max(0, i - 3) : i + 3]}})
         return
     for i, (x, y) in enumerate(zip(a, b)):
         if x[2] != y[2]:
-            MON.fail["C08"].append({"sig": {"kind": "indent_level", "token": x[0], "producer": MON.prov.get(id(f.lAllObjects[i]), "parse_or_cleanup")}, "detail": {"at": i, "model": x, "reparsed": y, "context": [t[1] for t in a[max(0, i - 4) : i + 3]]}})
+            MON.fail["C08"].append({"sig": {"kind": "indent_level", "token": x[0], "producer": site_of_id(MON.prov.get(id(f.lAllObjects[i]), "parse_or_cleanup"))}, "detail": {"at": i, "model": x, "reparsed": y, "context": [t[1] for t in a[max(0, i - 4) : i + 3]]}})
             return
 
 
@@ -649,14 +689,17 @@ def _c09(out_lines, style, conf, max_passes, obs):
             return
         if nxt == cur:
             if p > 2:
-                MON.fail["C09"].append({"sig": {"kind": "needs_more_than_one_pass", "rule": _first_refiring(seen[0], style, conf)}, "detail": {"passes_to_fix_point": p - 1}})
+                r1 = _first_refiring(seen[0], style, conf)
+                MON.fail["C09"].append({"sig": {"kind": "second_fix_changes_text", "site": site_of_id(r1)}, "detail": {"passes_to_fix_point": p - 1, "rule": r1}})
             return
         if nxt in seen:
-            MON.fail["C09"].append({"sig": {"kind": "cycle", "rule": _first_refiring(seen[0], style, conf)}, "detail": {"period": len(seen) - seen.index(nxt)}})
+            r1 = _first_refiring(seen[0], style, conf)
+            MON.fail["C09"].append({"sig": {"kind": "cycle", "site": site_of_id(r1)}, "detail": {"period": len(seen) - seen.index(nxt), "rule": r1}})
             return
         seen.append(nxt)
         cur = nxt
-    MON.fail["C09"].append({"sig": {"kind": "no_fix_point_within_5", "rule": _first_refiring(seen[0], style, conf)}, "detail": {}})
+    r1 = _first_refiring(seen[0], style, conf)
+    MON.fail["C09"].append({"sig": {"kind": "second_fix_changes_text", "site": site_of_id(r1)}, "detail": {"no_fix_point_within": max_passes, "rule": r1}})
 
 
 def _first_refiring(lines, style, conf):
